@@ -6,11 +6,43 @@ shape of every query is recorded), answers compared as multisets with the
 extracted reference (cross product + filter + projection)."""
 import random
 from vlib import *
-from dbsession import DB, Ref, canon_rows
+from dbsession import DB, Ref, Proc, canon_rows
+import re
 from sqlgen import *
 
 
-def mk(db, ref, rng, name, ncols, nrows, api):
+def erase_shape(plan):
+    """the engine's plan string with every maximal join-free subtree replaced by Scan (the model's jshape_of notation)"""
+    def parse(s, i):
+        j = i
+        while j < len(s) and (s[j].isalnum() or s[j] == "_"):
+            j += 1
+        name, kids = s[i:j], []
+        if j < len(s) and s[j] == "(":
+            j += 1
+            while True:
+                k, j = parse(s, j)
+                kids.append(k)
+                if s[j] == ",":
+                    j += 1
+                else:
+                    break
+            j += 1
+        return (name, kids), j
+    def has_join(t):
+        return t[0] in ("HashJoin", "IndexJoin", "NestedLoopJoin") or any(has_join(k) for k in t[1])
+    def show(t):
+        if not has_join(t):
+            return "Scan"
+        return t[0] + ("(" + ",".join(show(k) for k in t[1]) + ")" if t[1] else "")
+    try:
+        t, _ = parse(plan, 0)
+        return show(t)
+    except Exception:
+        return plan
+
+
+def mk(db, ref, rng, name, ncols, nrows, api, jm=None):
     types = ["i"] + [rng.choice("iis") for _ in range(ncols - 1)]
     if nrows >= 100:
         types[-1] = "s"       # wide rows on the build side of a hash join
@@ -25,6 +57,8 @@ def mk(db, ref, rng, name, ncols, nrows, api):
     if not r.startswith("ok"):
         return None
     ref.cmd("T %s %d" % (name, ncols))
+    if jm is not None:
+        jm.ask("T %s %s %s" % (name, ",".join(types), ",".join(kinds)), 30)
     for _ in range(nrows):
         vals = [Val("i", rng.choice([0, 1, 2, 3, 4, 5, 7])) if t == "i" else Val("s", rng.choice([b"a", b"b", b"ab", b""]) if nrows < 100 else rng.choice([b"a", b"ab"]) + b"x" * rng.randrange(0, 70)) for t in types]
         if rng.random() < 0.1 and len(types) > 1 and types[-1] == "s" and kinds[-1] == "n":
@@ -34,6 +68,8 @@ def mk(db, ref, rng, name, ncols, nrows, api):
         else:
             db.cmd("rawinsert %s %s" % (name, " ".join(v.tok() for v in vals)))
         ref.cmd("R %s %s" % (name, ",".join(v.tok() for v in vals)))
+        if jm is not None:
+            jm.ask("R %s %s" % (name, ",".join(v.tok() for v in vals)), 30)
     return types, names, kinds
 
 
@@ -53,6 +89,7 @@ def run(res, replay=None):
     nschema = 12 if res.tier == "quick" else 120
     for si in range(nschema):
         db, ref = DB(mem_kb=rng.choice([400, 1200])), Ref()
+        jm = Proc([os.path.join(BUILD, "c11_driver")])      # extracted join-planning model (Model/Join.v)
         try:
             if not db.open().startswith("ok"):
                 res.oracle_failures.append(("open", "database does not start")); continue
@@ -67,7 +104,7 @@ def run(res, replay=None):
                 if rng.random() < 0.3:
                     db.cmd("stats")
                 nrows = rng.choice([250, 400]) if big else rng.choice([0, 1, 5, 12, 25])
-                m = mk(db, ref, rng, name, rng.randrange(2, 4), nrows, api=rng.random() < 0.5)
+                m = mk(db, ref, rng, name, rng.randrange(2, 4), nrows, api=rng.random() < 0.5, jm=jm)
                 if m is None:
                     break
                 tabs[name] = m
@@ -90,6 +127,14 @@ def run(res, replay=None):
                     rc = rng.choice([c for c, t in enumerate(tabs[r][0]) if t == "i"])
                     conds.append("%s.%s = %s.%s" % (l, tabs[l][1][lc], r, tabs[r][1][rc]))
                     jr.append((l, lc, r, rc))
+                if rng.random() < 0.25:
+                    # a comparison of two columns of one table (applied as a filter of that table's scan)
+                    tn = rng.choice(use)
+                    ic = [c for c, t in enumerate(tabs[tn][0]) if t == "i"]
+                    if len(ic) >= 2:
+                        c1, c2 = rng.sample(ic, 2)
+                        conds.append("%s.%s = %s.%s" % (tn, tabs[tn][1][c1], tn, tabs[tn][1][c2]))
+                        jr.append((tn, c1, tn, c2))
                 filt = []
                 for _ in range(rng.choice([0, 0, 1, 2])):
                     tn = rng.choice(use)
@@ -104,8 +149,8 @@ def run(res, replay=None):
                 fsql = ["%s.%s %s %s" % (tn, tabs[tn][1][c], op[1], v.sql()) for tn, c, op, v in filt]
                 if len(use) == 2 and rng.random() < 0.5:
                     sql = "SELECT %s FROM %s JOIN %s ON %s" % (selsql, use[0], use[1], conds[0])
-                    if fsql:
-                        sql += " WHERE " + " AND ".join(fsql)
+                    if conds[1:] + fsql:
+                        sql += " WHERE " + " AND ".join(conds[1:] + fsql)
                 else:
                     sql = "SELECT %s FROM %s WHERE %s" % (selsql, ", ".join(use), " AND ".join(conds + fsql))
                 sql += ";"
@@ -127,6 +172,24 @@ def run(res, replay=None):
                 key = shape[3:] if shape.startswith("ok:") else shape
                 shapes[key] = shapes.get(key, 0) + 1
                 res.note_case(sql + "|" + key, True)
+                qcmd = ("Q1" if big else "Q") + " %s %s %s" % (",".join(use), ",".join(str(roff[tn] + c) for tn, c in sel), rpn)
+                ma = jm.ask(qcmd, 120)
+                res.extra["join_model_queries"] = res.extra.get("join_model_queries", 0) + 1
+                if ma is None or not ma.startswith("ok "):
+                    res.broken.append("join model driver failed on %r: %s" % (qcmd, ma))
+                    break
+                mf = dict(x.split("=", 1) for x in ma.split()[1:] if "=" in x)
+                mref = "ok:" + mf.get("ref", "")
+                if mref != want and len(res.mismatches) < 5:
+                    res.mismatches.append(("# driver input: " + qcmd, "the join model's reference answer differs from the SQL reference semantics: %s | %s" % (mref[:200], want[:200])))
+                if mf.get("hyps") == "1" and not big:
+                    res.extra["join_model_candidates"] = res.extra.get("join_model_candidates", 0) + int(mf.get("ncand", "0"))
+                    if mf.get("agree") != "1" and len(res.mismatches) < 5:
+                        res.mismatches.append(("# driver input: " + qcmd, "the model's candidate plans do not all return the reference answer although the theorem's hypotheses hold (join_hyps_ok): " + ma[:300]))
+                    if shape.startswith("ok:") and erase_shape(key) not in mf.get("shapes", "").split(";") and len(res.mismatches) < 5:
+                        res.mismatches.append(("# session:\n" + "\n".join(db.log[-60:]) + "\n# driver input: " + qcmd, "the engine's plan %s (join shape %s) is not among the model's candidate shapes %s" % (key, erase_shape(key), mf.get("shapes", "")[:400])))
+                    if got != mref and got == want and len(res.mismatches) < 5:
+                        pass
                 if got != want and len(res.oracle_failures) < 5:
                     res.oracle_failures.append(("# session:\n" + "\n".join(db.log[-400:]), "join answer differs from the naive evaluation (plan %s): %s => engine %s | reference %s" % (key, sql, got[:300], want[:300])))
                 if db.dead:
@@ -134,7 +197,11 @@ def run(res, replay=None):
             if len(res.samples) < 3:
                 res.samples.append(sql + " -> " + key)
         finally:
-            db.destroy(); ref.close()
+            db.destroy(); ref.close(); jm.close()
+    import pressure
+    for d, w in pressure.tiny_pool_join(res, rng, 12):
+        if len(res.oracle_failures) < 5:
+            res.oracle_failures.append((d, w))
     # listed finding: NULL join keys are matched by the nested loop join (NULL = NULL is true in a Selection) but not by hash / index joins
     db = DB()
     try:
